@@ -11,12 +11,12 @@ mut("c08_swap_units", "C08", "server.go",
     "\tcase 'm':\n\t\t\treturn time.Microsecond\n\t\tcase 'u':\n\t\t\treturn time.Millisecond")
 mut("c08_no_saturate", "C08", "server.go", "\tif time.Duration(val) > maxDuration/unit {", "\tif false && time.Duration(val) > maxDuration/unit {")
 mut("c08_sign_accepted", "C08", "server.go", "\tif timeout[0] == '+' || timeout[0] == '-' {", "\tif timeout[0] == '+' {")
-mut("c05_wrong_key", "C05,C01", "internal/client/multiplexer.go", "\tch, ok := rm.handlers[rpc.GetId()]", "\tch, ok := rm.handlers[rpc.GetId()+1]")
-mut("c14_no_defer_unregister", "C14", "internal/client/multiplexer.go", "\tdefer rm.unregisterHandler(streamId)\n", "")
-mut("c09_close_skipped", "C09", "internal/client/multiplexer.go", "\t\t\tclose(ch)\n\t\t\tdelete(rm.handlers, id)", "\t\t\t_ = ch\n\t\t\tdelete(rm.handlers, id)")
+mut("c05_wrong_key", "C05,C01", "internal/client/multiplexer.go", "\th, ok := rm.handlers[rpc.GetId()]", "\th, ok := rm.handlers[rpc.GetId()+1]")
+mut("c14_no_defer_unregister", "C14", "internal/client/multiplexer.go", "\t\tclose(gone)\n\t\trm.unregisterHandler(streamId)\n", "\t\tclose(gone)\n")
+mut("c09_close_skipped", "C09", "internal/client/multiplexer.go", "\t\t\tclose(h.ch)\n\t\t\tdelete(rm.handlers, id)", "\t\t\t_ = h\n\t\t\tdelete(rm.handlers, id)")
 mut("c03_ok_status_needs_body", "C03,C13", "internal/client/multiplexer.go", "if resp.Status != nil && resp.Status.Code != int32(codes.OK) {", "if resp.Status != nil && (resp.Status.Code != int32(codes.OK) || resp.Body == nil) {")
 mut("c03_eof_on_empty_message", "C03,C02", "internal/client/stream.go", "\tif st.GetCode() == int32(codes.OK) {\n\t\tif rpc.GetReset_() != nil {", "\tif st.GetCode() == int32(codes.OK) || st.GetMessage() == \"\" {\n\t\tif rpc.GetReset_() != nil {")
-mut("c09_register_unconditional", "C09", "internal/client/multiplexer.go", "\tif rm.rErr != nil {\n\t\treturn rm.rErr\n\t}\n\trm.handlers[id] = c", "\trm.handlers[id] = c")
+mut("c09_register_unconditional", "C09", "internal/client/multiplexer.go", "\tif rm.rErr != nil {\n\t\treturn rm.rErr\n\t}\n\trm.handlers[id] = respHandler", "\trm.handlers[id] = respHandler")
 mut("c13_unregister_keeps_entry", "C13,C14", "internal/client/multiplexer.go", "\tdelete(rm.handlers, id)\n}\n\nfunc (rm *RpcMultiplexer) readErrorIfDone", "}\n\nfunc (rm *RpcMultiplexer) readErrorIfDone")
 mut("c13_nil_header_deref", "C13", "internal/client/multiplexer.go", "resp.GetHeader().GetHeaders()", "resp.GetHeader().Headers")
 mut("c01_reply_body_of_request", "C01", "internal/client/multiplexer.go", "\t\t\treturn resp.Body, nil", "\t\t\treturn body, nil")
@@ -62,7 +62,7 @@ mut("c10_unary_ctx_never_cancelled", "C10", "server.go", "\tdefer unaryClientCtx
 mut("c14_stream_reader_ignores_stream_ctx", "C14,C07", "server.go", "\t\tcase <-ctx.Done():\n\t\t\treturn nil, ctx.Err()\n\t\t}\n\t}\n\twriterFunc", "\t\tcase <-h.ctx.Done():\n\t\t\treturn nil, h.ctx.Err()\n\t\t}\n\t}\n\twriterFunc")
 mut("c11_sendmsg_leaks_lock", "C11", "internal/server/stream.go", "\tss.protected.Lock()\n\tdefer ss.protected.Unlock()\n\n\tbody, err := ss.codec.Marshal(m)", "\tss.protected.Lock()\n\n\tbody, err := ss.codec.Marshal(m)")
 mut("c17_write_failure_without_connection", "C17", "proxy.go", "\t\t\t\tc.toServer <- command{id: c.id, client: c, err: err}\n\t\t\t\treturn errors.Wrap(err, \"failed to write to connection\")", "\t\t\t\tc.toServer <- command{id: c.id, err: err}\n\t\t\t\treturn errors.Wrap(err, \"failed to write to connection\")")
-mut("c02_client_drops_when_full", "C02", "internal/client/multiplexer.go", "\tch <- rpc\n}", "\tselect {\n\tcase ch <- rpc:\n\tdefault:\n\t}\n}")
+mut("c02_client_drops_when_full", "C02", "internal/client/multiplexer.go", "\tcase <-h.gone:\n", "\tdefault:\n")
 mut("c06_sendmsg_asks_for_reset", "C06", "internal/client/stream.go", "\tif err != nil {\n\t\tcs.teardown(false)\n\t\treturn err\n\t}\n\trpc := goatorepo.Rpc{", "\tif err != nil {\n\t\tcs.teardown(true)\n\t\treturn err\n\t}\n\trpc := goatorepo.Rpc{")
 mut("c06_reset_written_by_read_loop", "C06,C03", "server.go", "\tselect {\n\tcase h.writeChan <- reset:\n\t\treturn nil\n\tcase <-h.ctx.Done():\n\t\treturn context.Cause(h.ctx)\n\t}\n}", "\treturn h.rw.Write(h.ctx, reset)\n}")
 mut("c11_reset_sent_under_the_registry_lock", "C11", "server.go", "\t\tlog.Info().Msgf(\"did not expect body: calling RST stream %d\", rpc.Id)\n\t\tsendReset = true\n\t\treturn nil", "\t\tlog.Info().Msgf(\"did not expect body: calling RST stream %d\", rpc.Id)\n\t\treturn h.resetStream(rpc)")
